@@ -1,4 +1,5 @@
 import XvcPipeline.Sched
+import XvcPipeline.Gen.DepEdges
 /-!
 # The dependency graph of a pipeline run
 
@@ -10,12 +11,13 @@ declared output by its path, whether or not the file exists yet) and of the cycl
 namespace Sched
 open Gen
 
-/-- the dependency records the graph construction looks at (`XvcDependency`) -/
+/-- the dependency records the graph construction looks at (`XvcDependency`), with the state an earlier run recorded -/
 inductive DepRec where
-  | step (j : Nat)            -- `XvcDependency::Step`, resolved to the step with that name
-  | file (path : String)      -- File / Regex / RegexItems / Param / Lines / LineItems / SqliteQueryDigest: path equality
-  | glob (pattern : String)   -- Glob / GlobItems
-  | other                     -- Generic / UrlDigest: never an edge
+  | step (j : Nat)                              -- `XvcDependency::Step`, resolved to the step with that name
+  | path (k : DepKind) (path : String)          -- File / Regex / RegexItems / Param / Lines / LineItems / SqliteQueryDigest
+  | glob (pattern : String)                     -- Glob
+  | globItems (pattern : String) (recorded : List String)   -- GlobItems with the items recorded by an earlier run
+  | other                                       -- Generic / UrlDigest: never an edge
 deriving Repr
 
 /-- glob fragment used by the generated pipelines: `*` and `?` do not cross `/` -/
@@ -31,11 +33,14 @@ def globMatch : List Char → List Char → Bool
       | c :: cs => (if p = '?' then c != '/' else p == c) && globMatch ps cs
 termination_by p s => p.length + s.length
 
-/-- `dependencies_to_path`: does dependency record `r` read path `p`? -/
+/-- `dependencies_to_path`: does dependency record `r` make its step depend on the step that declares output `p`?
+    The decision per kind is the GENERATED `Gen.depEdge` (the arms of the Rust match). -/
 def DepRec.reads (r : DepRec) (p : String) : Bool :=
   match r with
-  | .file q => q == p
-  | .glob g => globMatch g.toList p.toList
+  | .path k q => depEdge k (q == p) false false true
+  | .glob g => depEdge .Glob false (globMatch g.toList p.toList) false true
+  | .globItems g recorded =>
+      depEdge .GlobItems false (globMatch g.toList p.toList) (recorded.contains p) recorded.isEmpty
   | _ => false
 
 structure Pipeline where
